@@ -77,6 +77,36 @@ class Patched:
         return False
 
 
+class IgraphSpy:
+    """records the edge list / node count of the graph an igraph generator (a classmethod of
+    igraph.Graph, inherited from GraphBase) returns, before pyunicorn post-processes it"""
+
+    def __init__(self, name):
+        self.name, self.edges, self.vcount = name, [], []
+
+    def __enter__(self):
+        import igraph
+        self.G = igraph.Graph
+        self.own = self.name in self.G.__dict__
+        self.orig_attr = self.G.__dict__.get(self.name)
+        orig = getattr(self.G, self.name)
+
+        def wrapper(*a, **k):
+            g = orig(*a, **k)
+            self.edges.append([tuple(map(int, e)) for e in g.get_edgelist()])
+            self.vcount.append(int(g.vcount()))
+            return g
+        setattr(self.G, self.name, staticmethod(wrapper))
+        return self
+
+    def __exit__(self, *exc):
+        if self.own:
+            setattr(self.G, self.name, self.orig_attr)
+        else:
+            delattr(self.G, self.name)
+        return False
+
+
 class PairStream:
     """index pairs in [0,b1) x [0,b2): mostly a cyclic walk through a shuffled
     list of *all* pairs (so an admissible pair is found within b1*b2 draws if
@@ -347,18 +377,27 @@ def run(ctx):
     def uniform_pairs(E, budget):
         """supplier for numpy.random.random(): u with floor(u*E) = chosen edge index"""
         ps = PairStream(rng, E, E, budget)
-        state = {"n": 0, "idx": []}
+        state = {"n": 0, "idx": [], "k": [], "ps": ps}
 
         def sup(kind, arg):
             assert kind == "random" and arg is None, (kind, arg)
             idx = ps.first() if state["n"] % 2 == 0 else ps.second()
             state["n"] += 1
-            u = (idx + rng.choice([0.0, 0.5, 0.999])) / E
-            if int(np.floor(u * E)) != idx:
-                u = (idx + 0.5) / E
-            state["idx"].append(int(np.floor(u * E)))
+            # the RNG value is the dyadic rational k / 2^20 (so that u * E is exact in double and the
+            # model can evaluate the source's draw expression on the same value): lowest / highest /
+            # some k with floor(k * E / 2^20) = idx
+            lo = -((-idx * 2 ** 20) // E)
+            hi = -((-(idx + 1) * 2 ** 20) // E) - 1
+            k = rng.choice([lo, hi, (lo + hi) // 2, rng.randrange(lo, hi + 1)])
+            u = k / 2.0 ** 20
+            assert 0 <= u < 1 and int(np.floor(u * E)) == idx, (k, E, idx)
+            state["idx"].append(idx)
+            state["k"].append(k)
             return u
         return sup, state
+
+    last_offered = {"all": False}     # did the last kernel call see every pair of edge indices?
+    adm_reqs, adm_impl = [], []       # existence of an admissible swap: model vs exhaustive stream
 
     def call_geo_kernel(mode, iterations, A, D, eps, edges, deg, budget, sh=0):
         """runs the compiled kernel in place; returns (completed, draws)"""
@@ -378,6 +417,7 @@ def run(ctx):
         idx = state["idx"]
         if len(idx) % 2:
             idx = idx[:-1]      # second index of the pair was never drawn
+        last_offered["all"] = set(zip(idx[::2], idx[1::2])) >= set(state["ps"].all)
         return completed, list(zip(idx[::2], idx[1::2]))
 
     def geo_req(tag, mode, n, A0, D, eps, deg, edges0, iterations, draws):
@@ -409,6 +449,11 @@ def run(ctx):
             completed, draws = call_geo_kernel(mode, 1, A, D, eps, edges, deg, len(el) ** 2 + 5, sh)
             reqs.append(geo_req("geo", mode, n, A0, D, eps, deg, e0, 1, draws))
             impl.append(f"{enc_mat(A)}|{enc_mat(edges)}|{'1' if completed else '<'}")
+            if completed or last_offered["all"]:
+                # a swap was made <=> an admissible pair exists (every pair was offered otherwise)
+                adm_reqs.append(f"geoadm {MODES[mode]} {enc_mat(A0)} {enc_mat(D)} {eps} {enc_vec(deg)} {enc_mat(e0)}")
+                adm_impl.append("1" if completed else "0")
+                ctx.count("geo:admissible-swap:" + ("exists" if completed else "none (all pairs rejected)"))
             rp = {"call": f"_randomly_rewire_geomodel_{mode}", "iterations": 1, "eps": eps / 4.0,
                   "scale_all_distances_by_2**": sh,
                   "A": A0.tolist(), "D": (D / 4.0).tolist(), "edges": e0.tolist(),
@@ -594,9 +639,15 @@ def run(ctx):
                 break               # the object was not updated (exception inside the kernel)
             idx = state["idx"]
             draws = list(zip(idx[::2], idx[1::2]))
+            ks = list(zip(state["k"][::2], state["k"][1::2]))
             A1 = net.adjacency
-            rp.update(edge_index_draws=draws, A_after=A1.tolist())
-            reqs.append(f"geoM {MODES[mode]} {n} {enc_mat(A0)} {enc_mat(D)} {eps} {iters} {enc_mat(draws)}")
+            rp.update(edge_index_draws=draws, rd_random_values_times_2_pow_20=ks, A_after=A1.tolist())
+            if rng.random() < 0.5:
+                reqs.append(f"geoM {MODES[mode]} {n} {enc_mat(A0)} {enc_mat(D)} {eps} {iters} {enc_mat(draws)}")
+            else:
+                # the model evaluates the source's `np.floor(rd.random() * E)` on the RNG values itself
+                reqs.append(f"geoMU {MODES[mode]} {n} {enc_mat(A0)} {enc_mat(D)} {eps} {iters} {enc_mat(ks)}")
+                ctx.count("geo:method:draws-from-rng-values")
             impl.append(f"{enc_mat(A1)}|{enc_mat(e0)}|{E0}|{iters}")
             geo_oracle(ctx, mode, A0, A1, None, D, eps, "method", rp, iters == 1)
             if not object_coherent(net, A1):
@@ -650,13 +701,23 @@ def run(ctx):
         return sup, state
 
     reqs, impl = [], []
-    for _ in range(400 if quick else 5000):
+    for it_ in range(400 if quick else 5000):
         n = rng.choice([4, 5, 6, 7, 8, 9, 10, 11])
         gk, A = structured_graph(rng, n)
         if rng.random() < 0.5:
             gk, A = "random", rand_graph(rng, n, rng.choice([0.3, 0.5]))
+        big = it_ < (2 if quick else 8)
+        if big:
+            # more than 127 cross links: counts (`cross_A.sum()` of an int8 matrix, `number_cross_links`,
+            # `NODE(swaps * number_cross_links)`) beyond the range of the ADJ element type
+            n = 26
+            gk, A = "dense-26", rand_graph(rng, n, 0.93)
         ctx.count(f"cross:graph={gk}")
         pk, n1, n2 = partition(n)
+        if big:
+            nodes_ = list(range(n))
+            rng.shuffle(nodes_)
+            pk, n1, n2 = "cover-13+13", nodes_[:13], nodes_[13:]
         m1, m2 = len(n1), len(n2)
         A0 = A.astype(ADJ)
         nodes1, nodes2 = np.array(n1, dtype=NODE), np.array(n2, dtype=NODE)
@@ -725,6 +786,23 @@ def run(ctx):
                      "cross_links is no longer the list of ones of cross_A", rp)
         ctx.case(("crew", A0.tobytes().hex(), tuple(n1), tuple(n2), links.tobytes().hex(), swaps, draws),
                  not np.array_equal(C0, C1))
+        if L >= 1:
+            # existence of an admissible swap: one swap from the initial state under a stream that
+            # offers every pair of link indices
+            A2, C2, links2 = A0.copy(), C0.copy(), links.copy()
+            sup, state = int_supplier(L, L, L * L + 5)
+            done1 = True
+            with Patched(K, sup):
+                try:
+                    K._randomlyRewireCrossLinks(A2, C2, links2, nodes1, nodes2, L, 1)
+                except Stop:
+                    done1 = False
+            v = state["vals"]
+            offered = set(zip(v[::2], v[1::2]))
+            if done1 or offered >= {(i_, j_) for i_ in range(L) for j_ in range(L)}:
+                adm_reqs.append(f"crossadm {enc_mat(C0)} {enc_mat(links)}")
+                adm_impl.append("1" if done1 else "0")
+                ctx.count("cross:admissible-swap:" + ("exists" if done1 else "none (all pairs rejected)"))
         ctx.count("cross:rewire:kernel:" + ("completed" if completed else "budget-exhausted"))
 
         # ---- public methods: histories (the result of one call is the input of the next); the model
@@ -877,6 +955,8 @@ def run(ctx):
                 hist.append(variant)
                 ctx.count(f"cross:method:history-length={min(len(hist), 4)}")
 
+    ctx.correspond("Lean geoAdmissible / crossAdmissible == 'the compiled kernel makes a swap when every pair of "
+                   "link indices is offered' (existence of an admissible swap = termination)", adm_reqs, adm_impl)
     ctx.correspond("Lean crossSetRun/crossRun/overwrite == compiled cross-link kernels; "
                    "randomlySetCrossLinks/setCount(Sparse)/randomlyRewireCrossLinks/swapCount/crossBlock/onesList == "
                    "InteractingNetworks.RandomlySetCrossLinks(_sparse)/RandomlyRewireCrossLinks "
@@ -978,16 +1058,69 @@ def run(ctx):
         if not simple_undirected(A):
             ctx.fail({"kind": "model", "generator": "ErdosRenyi", "invariant": "simple"},
                      "ErdosRenyi(p) not simple", {"n_nodes": N, "p": p, "A": A.tolist()})
-        # configuration model: any graphical sequence (degrees of a random graph)
+        # configuration model: graphical sequences (degrees of a random graph) and arbitrary even-sum
+        # sequences (hubs beyond N-1, a single node, all in one node: igraph then returns loops /
+        # multiple links, which `simplify()` removes); the multigraph igraph produced is observed by a
+        # spy and handed to the model (`simplified`); igraph's contract is checked on every call
         G = rand_graph(rng, N, rng.choice([0.2, 0.5, 0.8]))
         want = G.sum(axis=1).tolist()
-        A = np.asarray(quiet(Network.Configuration, want))
-        ctx.case(("conf", tuple(want), A.tobytes().hex()), sum(want) > 0)
-        ctx.count("generator:Configuration")
-        if not simple_undirected(A) or A.shape[0] != N or np.any(A.sum(axis=1) > np.array(want)):
-            ctx.fail({"kind": "model", "generator": "Configuration", "invariant": "degree-bound"},
-                     f"Configuration({want}) gave degrees {A.sum(axis=1).tolist()} / not simple",
-                     {"degree": want, "A": A.tolist()})
+        ck = rng.choice(["graphical", "graphical", "arbitrary", "hub", "one-node", "zeros"])
+        if ck == "arbitrary":
+            want = [rng.randrange(0, N + 2) for _ in range(N)]
+        elif ck == "hub":
+            want = [1] * N
+            want[rng.randrange(N)] = N + rng.randrange(0, 6)
+        elif ck == "one-node":
+            want = [0] * N
+            want[rng.randrange(N)] = 2 * rng.randrange(1, 4)
+        elif ck == "zeros":
+            want = [0] * N
+        if sum(want) % 2:
+            want[rng.randrange(N)] += 1
+        container = rng.choice(["list", "int-array", "tuple"])
+        arg = {"list": list(want), "int-array": np.array(want, dtype=rng.choice([np.int64, np.int32, np.int16])),
+               "tuple": tuple(want)}[container]
+        with IgraphSpy("Degree_Sequence") as spy:
+            try:
+                A, err = np.asarray(quiet(Network.Configuration, arg)), None
+            except Exception as e:  # noqa
+                A, err = None, e
+        rpc = {"call": "Network.Configuration", "degree": want, "container": container}
+        ctx.count(f"generator:Configuration:{ck}")
+        if err is not None:
+            ctx.fail({"kind": "model", "generator": "Configuration", "invariant": "raises",
+                      "error": type(err).__name__}, f"Configuration({want}) raised {err!r}", rpc)
+        else:
+            A = A.reshape(N, N) if A.size == 0 else A
+            es = spy.edges[-1] if spy.edges else None
+            rpc.update(igraph_edges=es, A=A.tolist())
+            ctx.case(("conf", tuple(want), A.tobytes().hex()), sum(want) > 0)
+            if es is not None:
+                inc = np.zeros(N, dtype=int)
+                for a_, b_ in es:
+                    inc[a_] += 1
+                    inc[b_] += 1
+                if spy.vcount[-1] != N or not np.array_equal(inc, np.array(want)):
+                    ctx.count("Configuration:igraph-contract-broken")
+                reqs.append(f"simplify {N} {enc_mat(es) if es else '-'}")
+                impl.append(enc_mat(A))
+                if any(a_ == b_ for a_, b_ in es) or len({frozenset(e) for e in es}) != len(es):
+                    ctx.count("Configuration:igraph-returned-loops-or-multiple-links")
+            if not simple_undirected(A) or A.shape != (N, N) or np.any(A.sum(axis=1) > np.array(want)) or \
+                    (es is not None and any(not A[a_, b_] for a_, b_ in es if a_ != b_)):
+                ctx.fail({"kind": "model", "generator": "Configuration", "invariant": "degree-bound"},
+                         f"Configuration({want}) gave degrees {A.sum(axis=1).tolist()} / not simple / lost a link",
+                         rpc)
+        # an odd degree sum cannot be realised: igraph refuses (outside "defined"), never a silent result
+        if rng.random() < 0.1:
+            odd = list(want)
+            odd[0] += 1
+            try:
+                quiet(Network.Configuration, odd)
+                ctx.fail({"kind": "model", "generator": "Configuration", "invariant": "odd-sum-accepted"},
+                         f"Configuration({odd}): odd degree sum accepted", {"degree": odd})
+            except Exception:  # noqa
+                ctx.count("generator:Configuration:odd-sum-refused")
         k = rng.randrange(1, 3)
         Nw = rng.randrange(2 * k + 2, 16)
         A = np.asarray(quiet(Network.WattsStrogatz, N=Nw, k=k, p=rng.choice([0.0, 0.2, 1.0])))
@@ -1033,8 +1166,12 @@ def run(ctx):
                       "error": type(e).__name__},
                      f"{cls}.Model('{mname}', {kwargs}) raised {e!r}", {"class": cls, "model": mname, "kwargs": kwargs})
         mb = rng.randrange(1, 4)
-        A = np.asarray(Network.BarabasiAlbert_igraph(n_nodes=N + 2, n_links_each=mb))
+        with IgraphSpy("Barabasi") as spy:
+            A = np.asarray(Network.BarabasiAlbert_igraph(n_nodes=N + 2, n_links_each=mb))
         ctx.count("generator:BarabasiAlbert_igraph")
+        if spy.edges:
+            reqs.append(f"simplify {N + 2} {enc_mat(spy.edges[-1]) if spy.edges[-1] else '-'}")
+            impl.append(enc_mat(A))
         if not simple_undirected(A) or A.shape[0] != N + 2 or np.any(A.sum(axis=1)[mb + 1:] < 1):
             ctx.fail({"kind": "model", "generator": "BarabasiAlbert_igraph", "invariant": "simple"},
                      "BarabasiAlbert_igraph not simple / wrong node count", {"n_nodes": N + 2, "m": mb, "A": A.tolist()})
@@ -1120,4 +1257,5 @@ def run(ctx):
         net = make_spatial(nn_, rand_graph(rng, nn_, 0.4))
         dist_step(net, [])
     ctx.correspond("Lean fromEdges == Network.set_edge_list (directly and as called by randomly_rewire); "
-                   "distKernel == set_random_links_by_distance on fresh objects", reqs, impl)
+                   "simplified == Network.Configuration / BarabasiAlbert_igraph given the (multi)graph igraph "
+                   "produced; distKernel == set_random_links_by_distance on fresh objects", reqs, impl)
